@@ -447,6 +447,7 @@ func genProject(r *rng.R, nPerturb int) (pProject, []string) {
 		p.Controllers = append(p.Controllers, c)
 	}
 	p.Types = append(p.Types, extraTypes...)
+	p.GroupParams = r.Chance(1, 3)
 	applied := []string{}
 	// a custom error type is as good as `error`
 	for ci := range p.Controllers {
